@@ -21,6 +21,10 @@ def gen_case(rng):
     for s in spec["x0"]: spec["x0"][s] = float(rng.randint(0, 6))
     sp = list(spec["x0"].keys()); n = rng.randint(3, 8); dt = rng.choice([0.25, 0.5, 1.0, 0.1, 0.3])     # 0.1, 0.3: grid elements with binary round-off (3*0.1 = 0.30000000000000004) -- S3_C09
     if dt in (0.1, 0.3): n = rng.randint(5, 14)
+    # very fine grids (the repository's own ODE-rule test uses a step of 1e-7): a scheduled rule fires AT its time, not near it
+    # (seeded change S6_C09: the rule's time matched with an absolute tolerance of 1e-7)
+    # (plain, safe and delay simulators; the volume-aware and lineage loops carry absolute 1e-7 / 1e-9 slacks of their own by design)
+    if mode in ("ssa", "ssa_safe", "dssa") and rng.random() < 0.12: dt = 2.0 ** -26; n = rng.randint(6, 12)
     # a quarter of the stochastic grids start after the initial time 0, half of those between two steps of the simulators' own dt clocks
     # (defect F23: the delay + volume simulator re-applied dt rules after every bare move to a requested time lying between two volume steps)
     off = rng.choice([0.5 * dt, 0.5 * dt, dt, 3 * dt]) if (mode in ("ssa", "ssa_safe", "vssa", "dssa", "dvssa") and dt in (0.25, 0.5, 1.0) and rng.random() < 0.3) else 0.0
@@ -106,7 +110,7 @@ def _mode_label(case):
     """the volume-aware and the lineage simulators keep their own step clock (next_queue_time += dt); on a grid whose step is no
     exact binary fraction that clock and the grid drift apart by an ulp (known finding F20): such cases get their own site key"""
     dt = case["times"][1] - case["times"][0]
-    inexact = case["mode"] in ("vssa", "dvssa", "lineage") and (dt * 64) != int(dt * 64)
+    inexact = case["mode"] in ("vssa", "dvssa", "lineage") and (dt * 2.0 ** 40) != int(dt * 2.0 ** 40)      # not a binary fraction
     # ... and they stop only at reaction times, their own steps (initial time 0 + k dt) and queue slots, never at the requested times
     # (known finding F24): a grid lying BETWEEN those steps gets its own site key as well
     between = case["mode"] in ("vssa", "dvssa") and (case["times"][0] / dt) != int(case["times"][0] / dt)
